@@ -46,6 +46,10 @@ def gen_value(spec, rng, config, name=''):
             n *= x
         if spec.elem == 'float':
             data = [gen_float(rng, spec.finite) for _ in range(n)]
+            if rng.random() < 0.25:
+                # very small / large magnitudes (a power-of-two factor: exact) - tolerance-based shortcuts show here
+                f = rng.choice([2.0 ** -14, 2.0 ** -20, 2.0 ** -30, 2.0 ** 12])
+                data = [d if d in ('nan', 'inf', '-inf') else (float.fromhex(d) * f).hex() for d in data]
         elif spec.elem == 'bool':
             data = [rng.random() < 0.4 for _ in range(n)]
         elif spec.dtype.startswith('uint'):
